@@ -305,12 +305,13 @@ def run_shard(shard, tier, seed, acc) -> None:
             recs = records_for(pw, i % 2)
             best = min((p, -w) for p, w, _, _ in recs)
             ok_targets = {x[3].rstrip(".") for x in recs if (x[0], -x[1]) == best}
-            dom = ["domain.test", "corp.example"][i % 2]
-            blob = cms.ref_encrypt(rk, SID, b"c20", (361, 3, 5), cek=d.bytes(32), gcm_nonce_=d.bytes(12), key_nonce=d.bytes(32), domain=dom, forest=dom)
+            dom = ["domain.test", "corp.example", "emea.corp.test"][i % 3]
+            forest = [dom, dom, "corp.test"][i % 3]  # a child domain: the blob's forest name is not its domain name - the lookup is for the DOMAIN
+            blob = cms.ref_encrypt(rk, SID, b"c20", (361, 3, 5), cek=d.bytes(32), gcm_nonce_=d.bytes(12), key_nonce=d.bytes(32), domain=dom, forest=forest)
             for flavour in ("sync", "async"):
                 for op in ("unprotect", "protect"):
                     rec = Recorder(recs)
-                    dc = refdc.DC([rk], now=(361, 10, 12), domain=dom, forest=dom)
+                    dc = refdc.DC([rk], now=(361, 10, 12), domain=dom, forest=forest)
                     case = ["api", [list(x) for x in pw], flavour, op, i % 2]
                     with transport.network(dc) as hub, secctx.scripted_client(lambda u, p, **kw: secctx.ScriptedContext([b"C1"], 16)), seams.patched(dns.resolver, "resolve", rec.resolve), seams.patched(dns.asyncresolver, "resolve", rec.aresolve):
                         try:
@@ -343,6 +344,14 @@ def replay(case, seed, acc) -> None:
     acc.ev()
     if case[0] in ("fault", "after-fault"):
         run_shard(["faults"], "quick", seed, acc)
+        return
+    if case[0] == "api":
+        run_shard(["api"], "quick", seed, acc)
+        for k in list(acc.violations):
+            acc.violations[k] = [e for e in acc.violations[k] if e["case"] == case]
+            if not acc.violations[k]:
+                del acc.violations[k]
+        acc.violation_count = sum(len(v) for v in acc.violations.values())
         return
     if case[0] == "list":
         hist = case[4] if len(case) > 4 else []
